@@ -239,11 +239,28 @@ def _bits(names):
     return b
 
 
+def _mk_els(specs, j0, names, vk, log):
+    import lena.flow
+    els = []
+    for j, e in enumerate(specs):
+        if e["k"] == "map":
+            els.append(_Map(j0 + j, e, vk, log))
+        else:
+            els.append(lena.flow.Cache(names[e["c"]], recompute=bool(e["rc"]), method=e.get("method", "cPickle"),
+                                       protocol=e.get("proto", 2)))
+    return els
+
+
 def _build(op, names, vk, log):
     """build the pipeline of a run with the real lena classes; returns the generator to consume"""
     import lena.core
     import lena.flow
     src = _Src(op["src"], vk, log)
+    if op["op"] == "splitrun":
+        outer = _mk_els(op["outer"], 0, names, vk, log)
+        branch = _mk_els(op["branch"], len(outer), names, vk, log)
+        sp = lena.core.Split([lena.core.Sequence(*branch)], bufsize=op["bufsize"])
+        return lena.core.Source(src, *(outer + [sp]))()
     els = []
     for j, e in enumerate(op["els"]):
         if e["k"] == "map":
@@ -334,7 +351,7 @@ def run_impl(case):
     obs = []
     try:
         for op in case["hist"]:
-            if op["op"] == "run":
+            if op["op"] in ("run", "splitrun"):
                 ob = _run_op(op, names, vk, leaked)
             elif op["op"] == "drop":
                 import lena.flow
@@ -392,7 +409,27 @@ def _pipe_flow(stored, src, els):
     return flow, inputs, replay
 
 
+_SPLIT_RULE = []
+
+
+def split_patched():
+    """which buffer-size rule Split.__init__ of the tree under test has (notes/C18_defect_2.md): does a Cache in a
+    sequence branch make Split materialise the whole flow?  (a private attribute read by the harness)"""
+    if not _SPLIT_RULE:
+        import lena.core
+        import lena.flow
+        d = tempfile.mkdtemp(prefix="c18-probe-", dir=_tmp_base())
+        try:
+            sp = lena.core.Split([lena.core.Sequence(lena.flow.Cache(os.path.join(d, "p.pkl")))], bufsize=2)
+            _SPLIT_RULE.append(getattr(sp, "_bufsize", 2) is None)
+        finally:
+            shutil.rmtree(d, ignore_errors=True)
+    return _SPLIT_RULE[0]
+
+
 def model_requests(case):
+    if any(op["op"] == "splitrun" for op in case["hist"]):
+        return [dict(case, split_patched=split_patched())]
     return [case]
 
 
@@ -455,6 +492,44 @@ def oracle(case, res):
             else:
                 # an interrupted recomputation may or may not keep the old cache: the statement allows both
                 maybe_dropped = {c for c in inputs if stored[c] is not None}
+        elif op["op"] == "splitrun":
+            # Split fills its buffers from the outer pipeline (source + outer elements) before it yields what the branch
+            # makes of them: the outer pipeline is pulled whatever the branch does (and may be pulled to its end, and
+            # its caches filled, before the consumer stops); an exception of the outer pipeline may arrive before all
+            # earlier values were yielded.  The branch is a pipeline on the values of the outer flow.
+            m = len(op["outer"])
+            (o_vals, o_exc), o_inputs, o_replay = _pipe_flow(stored, op["src"], op["outer"])
+            (vals, exc), b_inputs, b_replay = _pipe_flow(stored, {"vals": o_vals, "raise": None}, op["branch"])
+            for ev in ob["ev"]:
+                if o_replay is not None and (ev[0] in ("s", "s!", "s$") or (ev[1] < o_replay)):
+                    return (f"upstream-pulled: {where}: cache {op['outer'][o_replay]['c']} is filled, but the run pulled "
+                            f"from upstream of it (event {ev})")
+                if b_replay is not None and ev[0] in ("m", "m!") and m <= ev[1] < m + b_replay:
+                    return (f"upstream-ran: {where}: cache {op['branch'][b_replay]['c']} (branch element {b_replay}) is "
+                            f"filled, but branch element {ev[1] - m} upstream of it processed a value")
+            if ob["out"] != vals[:len(ob["out"])]:
+                return (f"flow-altered: {where}: the flow through the pipeline is {vals}, the run yielded {ob['out']} "
+                        f"(end {ob['end']})")
+            k = op["take"]
+            if ob["end"] == "exhausted":
+                if exc is not None or o_exc is not None or ob["out"] != vals:
+                    return (f"end-differs: {where}: the run ended normally after {ob['out']}, the flow is {vals} "
+                            f"ending with {exc or o_exc}")
+                for c, fl in list(o_inputs.items()) + list(b_inputs.items()):
+                    stored[c] = list(fl[0])
+            else:
+                if ob["end"] == "stopped":
+                    if k is None or len(ob["out"]) != k:
+                        return f"end-differs: {where}: the consumer was stopped after {len(ob['out'])} values, take={k}"
+                elif ob["end"] not in (exc, o_exc):
+                    return (f"end-differs: {where}: the run ended with {ob['end']}; the flow {vals} ends with {exc} "
+                            f"(before the Split: {o_exc})")
+                maybe_dropped = {c for c in list(o_inputs) + list(b_inputs) if stored[c] is not None}
+                if o_exc is None:
+                    # the outer pipeline may have been pulled to its normal end: a complete run through its caches
+                    for c, fl in o_inputs.items():
+                        if ob["fs"][c]["final"] == list(fl[0]):
+                            stored[c] = list(fl[0])
         elif op["op"] == "drop":
             if stored[op["c"]] is not None and ob["r"] != "ok":
                 return f"drop-failed: {where}: drop_cache() of an existing cache raised {ob['r']}"
@@ -472,7 +547,16 @@ def oracle(case, res):
     return None
 
 
+def _show_els(els):
+    return "".join(("M%d%s" % (e["a"], "" if e["raise"] is None else "!%d" % e["raise"])) if e["k"] == "map"
+                   else ("C%d%s" % (e["c"], "r" if e["rc"] else "")) for e in els)
+
+
 def _show_op(op):
+    if op["op"] == "splitrun":
+        return (f"splitrun[src={op['src']['vals']}" + ("" if op["src"]["raise"] is None else f"!{op['src']['raise']}")
+                + f" outer={_show_els(op['outer'])} Split([Sequence({_show_els(op['branch'])})], bufsize={op['bufsize']})"
+                + f" take={op['take']} {op.get('fin', 'close')}]")
     if op["op"] != "run":
         return jdump(op)
     els = "".join(("M%d%s" % (e["a"], "" if e["raise"] is None else "!%d" % e["raise"])) if e["k"] == "map"
@@ -498,6 +582,9 @@ def classify(case, res):
             labels.append("run-mode:" + op.get("mode", "source"))
             labels.append("run:" + ("no-source-event" if not any(e[0][0] == "s" for e in ob["ev"]) else "from-source"))
             labels.append("take:" + ("all" if op["take"] is None else "k"))
+        elif op["op"] == "splitrun":
+            labels.append("split-end:" + ob["end"])
+            labels.append("split-bufsize:" + ("None" if op["bufsize"] is None else "n"))
         else:
             labels.append("op:" + op["op"] + (":" + ob["r"] if "r" in ob else ""))
     return sorted(set(labels))
@@ -510,6 +597,21 @@ def shrink(case):
     if case.get("vk", "int") != "int":
         yield dict(case, vk="int")
     for i, op in enumerate(hist):
+        if op["op"] == "splitrun":
+            def rep2(**kw):
+                return dict(case, hist=hist[:i] + [dict(op, **kw)] + hist[i + 1:])
+            if op["src"]["vals"]:
+                yield rep2(src=dict(op["src"], vals=op["src"]["vals"][:-1]))
+            if op["src"]["raise"] is not None:
+                yield rep2(src=dict(op["src"], **{"raise": None}))
+            for part in ("outer", "branch"):
+                for j in range(len(op[part])):
+                    if part == "outer" or len(op[part]) > 1:
+                        yield rep2(**{part: op[part][:j] + op[part][j + 1:]})
+            if op["bufsize"] is not None and op["bufsize"] > 1:
+                yield rep2(bufsize=op["bufsize"] - 1)
+            if op["take"] is not None:
+                yield rep2(take=None)
         if op["op"] != "run":
             continue
         def rep(**kw):
@@ -656,6 +758,46 @@ def _family_d():
                                                             FINALIZE, R(_vals(2, 1), [C(0)], mode=mode)]}
 
 
+def SR(vals, outer, branch, bufsize, take=None, fin="close", sraise=None):
+    return {"op": "splitrun", "src": {"vals": list(vals), "raise": sraise}, "outer": [dict(e) for e in outer],
+            "branch": [dict(e) for e in branch], "bufsize": bufsize, "take": take, "fin": fin}
+
+
+_SPLIT_SHAPES = [([], [C(0)]), ([M(1)], [C(0)]), ([], [M(1), C(0), M(2)]), ([M(1)], [C(0), M(2), C(1)]),
+                 ([C(1)], [M(2), C(0)]), ([M(3)], [M(1)])]
+
+
+def _split_variants(outer, branch, n, bufsize, run=0):
+    vals = _vals(run, n)
+    yield SR(vals, outer, branch, bufsize)
+    for fin in ("close", "leak"):
+        for k in range(n + 1):
+            yield SR(vals, outer, branch, bufsize, take=k, fin=fin)
+        for k in range(n + 1):
+            yield SR(vals, outer, branch, bufsize, sraise=k, fin=fin)
+        for part, els in (("outer", outer), ("branch", branch)):
+            if part == "branch" and bufsize is not None:
+                continue        # an element with state in a per-buffer branch is Split's documented caveat
+            for j, e in enumerate(els):
+                if e["k"] == "map":
+                    for k in range(n):
+                        o2, b2 = [dict(x) for x in outer], [dict(x) for x in branch]
+                        (o2 if part == "outer" else b2)[j]["raise"] = k
+                        yield SR(vals, o2, b2, bufsize, fin=fin)
+
+
+def _family_s(ns):
+    """a Sequence branch with caches inside Split: every buffer size x every crash point, then a plain complete
+    run of the same elements and a replay through the Split"""
+    for outer, branch in _SPLIT_SHAPES:
+        nc = 1 + max([e["c"] for e in outer + branch if e["k"] == "cache"] + [0])
+        for n in ns:
+            for bufsize in (None, 1, 2, 3):
+                for r1 in _split_variants(outer, branch, n, bufsize):
+                    yield {"nc": nc, "fam": "S", "hist": [r1, R(_vals(1, 2), outer + branch, mode="sequence"),
+                                                          SR(_vals(2, 3), outer, branch, bufsize)]}
+
+
 def _random_case(rng):
     nc = rng.choice([1, 2, 2, 3])
     hist = []
@@ -691,29 +833,59 @@ def _random_case(rng):
                 a = rng.randint(0, len(els) - 1)
                 nest = [a, rng.randint(a + 1, len(els))]
             vals = [rng.randint(0, 12) + 20 * i for _ in range(n)]
+            if rng.random() < 0.2:
+                cut = rng.randint(0, len(els))
+                bufsize = rng.choice([None, None, 1, 2, 3, 5])
+                branch = els[cut:]
+                if bufsize is not None:
+                    for e in branch:
+                        if e["k"] == "map":
+                            e["raise"] = None
+                hist.append(SR(vals, els[:cut], branch, bufsize, take=take, fin=rng.choice(["close", "leak"]),
+                               sraise=sraise))
+                continue
             hist.append(R(vals, els, take=take, fin=rng.choice(["close", "leak"]), mode=mode, sraise=sraise, nest=nest))
     return {"nc": nc, "fam": "R", "hist": hist}
 
 
+def _enumerated(quick):
+    return itertools.chain(
+        _family_a(range(0, 5) if quick else range(0, 7)),
+        _family_b(2), _family_b(3), ([] if quick else _family_b(4)),
+        _family_c(3 if quick else 4),
+        _family_d(),
+        _family_s(range(0, 4) if quick else range(0, 6)),
+        _family_x())
+
+
 def gen_cases(ctx):
+    """a generator (cases are produced lazily); the random histories are interleaved with the enumerated families so
+    that every prefix of the stream is a mixture"""
     rng = ctx.rng
     quick = ctx.tier == "quick"
-    cases = []
-    cases.extend(_family_a(range(0, 5) if quick else range(0, 7)))
-    cases.extend(_family_b(2))
-    cases.extend(_family_b(3))
-    if not quick:
-        cases.extend(_family_b(4))
-    cases.extend(_family_c(3 if quick else 4))
-    cases.extend(_family_d())
-    for i, c in enumerate(cases):
-        c["vk"] = _VKS[i % 4]
     ctx.exhaustive = False     # the enumerated families are complete; the random histories are sampled
-    for _ in range(8000 if quick else 250000):
-        c = _random_case(rng)
-        c["vk"] = rng.choice(_VKS)
-        cases.append(c)
-    return cases
+    n_random = 8000 if quick else 250000
+    per = 1 if quick else 6
+    made = 0
+    for i, c in enumerate(_enumerated(quick)):
+        c["vk"] = _VKS[i % 4]
+        yield c
+        for _ in range(per):
+            if made < n_random:
+                made += 1
+                r = _random_case(rng)
+                r["vk"] = rng.choice(_VKS)
+                yield r
+    while made < n_random:
+        made += 1
+        r = _random_case(rng)
+        r["vk"] = rng.choice(_VKS)
+        yield r
+
+
+def _family_x():
+    """placeholder for the option / static-context families (filled below)"""
+    return []
 
 
 # ---- MANIFEST texts ------------------------------------------------------------------------
